@@ -182,16 +182,18 @@ Definition dec_class (w : Z) (d : list Z) (args key : list Z) : Z :=
                      7 system table); region of the first edit; template; page; offset in page]
      kind 3  JsonbView::new + as_value + full walk on corrupted JSONB bytes   feat = [length]
    site codes (harness file_code): 1 btree/leaf.rs, 2 btree/interior.rs, 3 btree/simd_scan.rs, 9 records/view.rs,
-   10 records/jsonb.rs, 22 other src/records, 0 outside src;  message classes: 3 arithmetic overflow,
+   10 records/jsonb.rs, 11 records/array.rs, 14 sql/decoder.rs, 22 other src/records, 0 outside src;  message classes: 3 arithmetic overflow,
    4 slice / index out of range, 5 unwrap / expect, 7 capacity overflow.
      8   find_key_simd (simd_scan.rs) indexes the slot array beyond the page: stored cell_count > 2045
-     9   LeafNode / LeafNodeMut (leaf.rs) on a corrupted leaf page of a database file: the database-level reach of
-         classes 1 and 2 and the same unchecked arithmetic in the write path (free_end - free_start, insert_cell)
+     9   LeafNode / LeafNodeMut (leaf.rs, or slice::copy_within called from it) on a corrupted leaf page of a
+         database file: the database-level reach of classes 1 and 2 and the same unchecked arithmetic in the
+         write path (free_end - free_start, insert_cell, delete_cell)
      10  InteriorNode (interior.rs) on a corrupted interior page of a database file: reach of class 3
      11  turdb.catalog: the stored catalog length is allocated unchecked (capacity overflow panic / allocation abort)
-     12  a scan of a page file whose leaf chain was made cyclic never ends (watchdog)
+     12  a lookup in a page file whose child pointers / leaf chain were made cyclic never ends (watchdog)
      13  JsonbView accessors slice the entry table / data section unchecked
-     14  RecordView getters on record bytes corrupted inside a page file: reach of class 14 of the decoder table
+     14  the row decoders (RecordView getters, sql/decoder.rs schema_fits_record) on record bytes corrupted inside a
+         page file: reach of class 14 of the decoder table
      15  turdb.catalog body corrupted undetected (no checksum): rows are then read / written with the wrong column
          types and the record code panics *)
 Definition fnth (l : list Z) (i : nat) : Z := nth i l 0.
@@ -208,10 +210,11 @@ Definition xp_class (kind : Z) (feat : list Z) (o : xout) : Z :=
     | XPanic site cls =>
         if page_file fk && (site =? 3) && (cls =? 4) then 8
         else if page_file fk && (site =? 1) && ((cls =? 3) || (cls =? 4)) then 9
+        else if page_file fk && (site =? 0) && (cls =? 4) then 9     (* copy_within called by insert_cell / delete_cell panics inside core *)
         else if page_file fk && (site =? 2) && (cls =? 4) then 10
-        else if page_file fk && ((site =? 9) || (site =? 22)) && (cls =? 4) then 14
+        else if page_file fk && ((site =? 9) || (site =? 14) || (site =? 22)) && (cls =? 4) then 14
         else if (fk =? 2) && (off <? 80) && (site =? 0) && (cls =? 7) then 11
-        else if (fk =? 2) && (128 <=? off) && ((site =? 9) || (site =? 22)) && (cls =? 4) then 15
+        else if (fk =? 2) && (128 <=? off) && ((site =? 9) || (site =? 10) || (site =? 11) || (site =? 22)) && (cls =? 4) then 15
         else 0
     | XAbort => if (fk =? 2) && (off <? 80) then 11 else 0
     | XTimeout => if page_file fk then 12 else 0
